@@ -154,6 +154,74 @@ def unprotected_suspensions(ctx, fi, _depth=0, _seen=None):
     return bad
 
 
+
+# ---------------------------------------------------------------------------------------------
+# may a background coroutine END WITH AN EXCEPTION by design (not through an "unexpected error" wrapper)?
+# ---------------------------------------------------------------------------------------------
+_CATCH_ALL = ("KafkaError", "Exception", "BaseException")
+
+
+def _has_bare_raise(h):
+    for x in ast.walk(h):
+        if isinstance(x, ast.Raise) and x.exc is None:
+            return True
+    return False
+
+
+def _propagates(node):
+    """An exception raised at CFG node `node` (a KafkaError, typically) leaves the function."""
+    for a, role in reversed(node.within):
+        if isinstance(a, ast.Try) and role == "body":
+            for h in a.handlers:
+                names = [] if h.type is None else [unparse(e).split(".")[-1] for e in (h.type.elts if isinstance(h.type, ast.Tuple) else [h.type])]
+                if h.type is None or any(nm in _CATCH_ALL for nm in names):
+                    if _has_bare_raise(h):
+                        break  # re-raised: keeps travelling outwards
+                    return False
+        elif isinstance(a, (ast.With, ast.AsyncWith)) and role == "body":
+            for it in a.items:
+                ce = it.context_expr
+                if isinstance(ce, ast.Call) and unparse(ce.func).endswith("suppress") and any(
+                        unparse(arg).split(".")[-1] in _CATCH_ALL for arg in ce.args):
+                    return False
+    return True
+
+
+def _in_unexpected_wrapper(node):
+    for a, role in reversed(node.within):
+        if isinstance(a, ast.ExceptHandler) and role == "body" and (a.type is None or unparse(a.type) in ("Exception", "BaseException")):
+            return True
+    return False
+
+
+def may_raise_by_design(ctx, fi, depth=0, memo=None):
+    """Witness text when coroutine `fi` can end with an exception that the code raises on purpose (explicit `raise` outside
+    an `except Exception` wrapper, here or in a consumer/producer-module callee up to depth 3, not caught on the way)."""
+    memo = ctx.__dict__.setdefault("_mrbd", {}) if memo is None else memo
+    if fi.qualname in memo:
+        return memo[fi.qualname]
+    memo[fi.qualname] = None
+    c = ctx.cfg(fi)
+    live = c.live_nodes()
+    res = None
+    for n in c.nodes:
+        if n not in live:
+            continue
+        if n.kind == "raise" and n.ast.exc is not None and not _in_unexpected_wrapper(n) and _propagates(n):
+            res = f"{fi.qualname}:{n.lineno} `{unparse(n.ast)[:60]}`"
+            break
+        if n.kind == "call" and depth < 3 and _propagates(n):
+            for g in ctx.resolve_call(fi, n.ast):
+                if g is not fi and g.module.name.startswith(("aiokafka.consumer", "aiokafka.producer")):
+                    r = may_raise_by_design(ctx, g, depth + 1, memo)
+                    if r:
+                        res = f"{fi.name} -> {r}"
+                        break
+            if res:
+                break
+    memo[fi.qualname] = res
+    return res
+
 # ---------------------------------------------------------------------------------------------
 # must-call / must-release path queries
 # ---------------------------------------------------------------------------------------------
@@ -418,6 +486,10 @@ def rule_release(ctx, sites):
     ctx.ob(R, fi, fi.node, len(adds) >= 2 and len(spawned) >= 5, "produce / transaction tasks are not all tracked in `tasks`", text="sender-tracks-tasks")
 
 
+def c_of(ctx, fi):
+    return ctx.cfg(fi)
+
+
 def rule_cancel_await(ctx, sites):
     R = "cancel-await"
     ctx.rep.rule(R, "wherever a task is cancelled and then awaited, either the await is protected against CancelledError "
@@ -456,6 +528,16 @@ def rule_cancel_await(ctx, sites):
                     attr = a.iter.attr
         routines = by_attr.get(attr, [])
         txt = f"{subj}:{'/'.join(sorted({r.name for r in routines})) or '?'}"
+        # a stored task that ended with an exception re-raises it when awaited: the await needs a not-done() guard
+        # (or a handler) whenever the task's coroutine can fail by design
+        for r in routines:
+            why = may_raise_by_design(ctx, r)
+            if why:
+                dg = [t for t in c_of(ctx, fi).nodes if t.kind == "test" and _null_label(t.ast, subj) == "T" and isinstance(t.ast, ast.Call)
+                      and call_attr(t.ast) == "done" and c_of(ctx, fi).dominated_by_branch(t, "F", an)]
+                ctx.ob(R, fi, an, bool(dg) or not _propagates(an),
+                       f"`await {subj}` is not guarded by `not {subj}.done()`: when {r.name} already died with an error ({why}) the closer re-raises "
+                       f"that stale error and skips everything after it (LeaveGroup, fetcher.close, client.close)", text=f"done-guard:{subj}:{r.name}")
         if prot:
             ctx.ob(R, fi, an, True, "", text=txt)
             continue
